@@ -658,6 +658,9 @@ func (c *c04Ctx) checkHeaderValue(hv fit.Header, desc string) error {
 	if hv.CRC != 0 && hv.CRC != crc12 && hv.Size != 12 && cls == 0 {
 		r.specFail("hdrcrc_mismatch_accepted", fmt.Sprintf("Header.CheckIntegrity accepts Header{Size: %d, CRC: %#04x} whose contents have checksum %#04x", hv.Size, hv.CRC, crc12), rep)
 	}
+	if hv.Size == 14 && hv.CRC == crc12 && cls == 2 {
+		r.specFail("hdrcrc_match_rejected", fmt.Sprintf("Header.CheckIntegrity reports a checksum failure for Header{Size: 14, DataSize: %d, CRC: %#04x} whose stored checksum is the checksum of its first 12 bytes (the one DecodeHeader accepts)", hv.DataSize, hv.CRC), rep)
+	}
 	if badSize && cls != 1 {
 		r.specFail("header_bad_size", fmt.Sprintf("Header.CheckIntegrity returns %s for Size %d (neither 12 nor 14); the decoder rejects that size with a format error", className(cls), hv.Size), rep)
 	}
@@ -699,6 +702,12 @@ func (c *c04Ctx) headerValues() []struct {
 	for _, sz := range sizes {
 		for _, other := range []string{"legal", "proto", "dtype"} {
 			h := fit.Header{Size: byte(sz), ProtocolVersion: 0x20, ProfileVersion: 2134, DataSize: uint32(c.rg.intn(1 << 16))}
+			switch c.rg.intn(3) { // every byte of the size field takes part in the checksum
+			case 0:
+				h.DataSize = uint32(c.rg.intn(1<<16))<<16 | uint32(c.rg.intn(1<<16))
+			case 1:
+				h.DataSize = 1 << uint(c.rg.intn(32))
+			}
 			copy(h.DataType[:], ".FIT")
 			switch other {
 			case "proto":
@@ -719,6 +728,35 @@ func (c *c04Ctx) headerValues() []struct {
 					h    fit.Header
 					desc string
 				}{g, fmt.Sprintf("size%d/%s/%s", sz, other, crc.d)})
+			}
+		}
+	}
+	// the two legal sizes with every single bit of the size field and random 32-bit sizes: each of the
+	// twelve bytes takes part in the checksum
+	for _, sz := range []byte{12, 14} {
+		var dss []uint32
+		for k := 0; k < 32; k++ {
+			dss = append(dss, 1<<uint(k))
+		}
+		for k := 0; k < 16; k++ {
+			dss = append(dss, uint32(c.rg.intn(1<<16))<<16|uint32(c.rg.intn(1<<16)))
+		}
+		for _, ds := range dss {
+			h := fit.Header{Size: sz, ProtocolVersion: []byte{0x10, 0x20}[c.rg.intn(2)], ProfileVersion: uint16(c.rg.intn(1 << 16)), DataSize: ds}
+			copy(h.DataType[:], ".FIT")
+			b12 := []byte{h.Size, h.ProtocolVersion, byte(h.ProfileVersion), byte(h.ProfileVersion >> 8), 0, 0, 0, 0}
+			binary.LittleEndian.PutUint32(b12[4:8], h.DataSize)
+			b12 = append(b12, h.DataType[:]...)
+			for _, crc := range []struct {
+				v uint16
+				d string
+			}{{uint16(1 + c.rg.intn(65535)), "crcrandom"}, {dyncrc16.Checksum(b12), "crcmatching"}} {
+				g := h
+				g.CRC = crc.v
+				out = append(out, struct {
+					h    fit.Header
+					desc string
+				}{g, fmt.Sprintf("size%d/datasize%#x/%s", sz, ds, crc.d)})
 			}
 		}
 	}
